@@ -855,7 +855,12 @@ func TestCheck(t *testing.T) {
 // minimize drops operations from a confirmed counterexample as long as the last
 // operation still fails in the same way on a fresh object (greedy, deterministic).
 func minimize(s *streamT, path []op, kind string) []op {
-	reproduces := func(p []op) bool {
+	reproduces := func(p []op) (ok bool) {
+		defer func() {
+			if recover() != nil { // the shortened list is not a valid operation list for this stream
+				ok = false
+			}
+		}()
 		fs, _ := runFresh(s, p)
 		last := fs[len(fs)-1]
 		return last != nil && last.kind == kind
